@@ -73,7 +73,15 @@ func scanSpecDirs(dirs []string, scanFn scanSpecFunc) error {
 	)
 
 	for priority, dir := range dirs {
-		err = filepath.Walk(dir, func(path string, info os.FileInfo, err error) error {
+		// Walk does not follow a symbolic link given as its root: scan a Spec
+		// directory which is a link to a directory through the link
+		root := dir
+		if fi, lerr := os.Lstat(dir); lerr == nil && fi.Mode()&os.ModeSymlink != 0 {
+			if st, serr := os.Stat(dir); serr == nil && st.IsDir() {
+				root = dir + string(filepath.Separator)
+			}
+		}
+		err = filepath.Walk(root, func(path string, info os.FileInfo, err error) error {
 			// for initial stat failure Walk calls us with nil info
 			if info == nil {
 				// an inaccessible Spec dir should not prevent scanning the others
@@ -81,7 +89,7 @@ func scanSpecDirs(dirs []string, scanFn scanSpecFunc) error {
 			}
 			// first call from Walk is for dir itself, others we skip
 			if info.IsDir() {
-				if path == dir {
+				if path == root {
 					return nil
 				}
 				return filepath.SkipDir
